@@ -12,6 +12,14 @@ EFN_MAP = (None, "ret", "raise", "reraise", "raise_equal")
 EFN_FLAT = (None, "fut_ok", "raise", "reraise", "nonfuture", "raise_equal")
 
 
+class BE(BaseException):
+    """a failure that is not an Exception subclass (like SystemExit / KeyboardInterrupt)"""
+
+    def __init__(self, tag):
+        BaseException.__init__(self, tag)
+        self.tag = tag
+
+
 class EqE(Exception):
     """exceptions of this class all compare equal (value-style __eq__)"""
 
@@ -30,10 +38,14 @@ def _params():
     out = []
     for flat in (False, True):
         for form in ("executor", "f"):
-            for inp in ("ok", "err"):
+            for inp in ("ok", "err", "err_base"):
                 for timing in ("done", "later"):
                     for fn in (FN_FLAT if flat else FN_MAP):
+                        if inp == "err_base" and fn not in (None, "ret", "fut_ok"):
+                            continue
                         for efn in (EFN_FLAT if flat else EFN_MAP):
+                            if inp == "err_base" and efn not in (None, "ret", "fut_ok"):
+                                continue        # a BaseException raised *by* error_fn is outside the property
                             out.append(dict(flat=flat, form=form, inp=inp, timing=timing, fn=fn, efn=efn))
                             if timing == "later" and (efn is None or fn in ("fut_cancelled", "fut_later")):
                                 # a cancel() of the output is refused first (input already running);
@@ -49,7 +61,7 @@ def origin(exc):
 def body(mc, p):
     calls = {"fn": [], "efn": []}
     later = ProbeFuture(mc, "later")
-    orig = EqE("in") if p["efn"] == "raise_equal" else E("in")
+    orig = EqE("in") if p["efn"] == "raise_equal" else (BE("in") if p["inp"] == "err_base" else E("in"))
     newexc = []
 
     def fn(x):
@@ -102,7 +114,7 @@ def body(mc, p):
         if p["timing"] == "done":
             # an already finished delegate future: complete inside submit via an inline base
             base.mode = "inline"
-        out = ex.submit((lambda: "x") if p["inp"] == "ok" else (lambda: origin(orig)))
+        out = ex.submit((lambda: "x") if p["inp"] == "ok" else (lambda: origin(orig)))   # (inline base: kit catches BaseException)
         src = base.items[0].future
     else:
         src = ProbeFuture(mc, "src")
@@ -113,7 +125,7 @@ def body(mc, p):
             else:
                 try:
                     origin(orig)
-                except Exception as e:
+                except (Exception, BE) as e:
                     src.set_exception(e)
         out = F.f_flat_map(src, **kw) if p["flat"] else F.f_map(src, **kw)
     mc.emit("before", s=snapshot(out))
@@ -127,7 +139,7 @@ def body(mc, p):
             else:
                 try:
                     origin(orig)
-                except Exception as e:
+                except (Exception, BE) as e:
                     base.complete(0, exc=e)
         else:
             if not p.get("refused"):
@@ -137,7 +149,7 @@ def body(mc, p):
             else:
                 try:
                     origin(orig)
-                except Exception as e:
+                except (Exception, BE) as e:
                     src.set_exception(e)
     mid = snapshot(out)
     if later.set_running_or_notify_cancel():
@@ -180,8 +192,9 @@ def ref(p):
             return ("err", "TypeError"), 1, 0, False
     else:
         k = p["efn"]
+        tagname = "BE(in)" if p["inp"] == "err_base" else "E(in)"
         if k is None:
-            return ("err", "E(in)"), 0, 0, True
+            return ("err", tagname), 0, 0, True
         if k == "ret":
             return ("ok", ("e", "in")), 0, 1, None
         if k == "fut_ok":
@@ -189,7 +202,7 @@ def ref(p):
         if k == "raise":
             return ("err", "E2(efn)"), 0, 1, False
         if k == "reraise":
-            return ("err", "E(in)"), 0, 1, True
+            return ("err", tagname), 0, 1, True
         if k == "raise_equal":
             return ("err", "EqE(other)"), 0, 1, False
         if k == "nonfuture":
@@ -287,8 +300,12 @@ oracle("c13.chains")(ccheck)
 
 # ------------------------------------------------------------------ completion racing a cancel of the output
 def _rparams():
-    return [dict(flat=fl, form=fo, inp=i, stage=st) for fl in (False, True) for fo in ("executor", "f")
-            for i in ("ok", "err") for st in ("outer", "inner") if not (st == "inner" and (not fl or i == "err"))]
+    out = [dict(flat=fl, form=fo, inp=i, stage=st, inner_end="value") for fl in (False, True) for fo in ("executor", "f")
+           for i in ("ok", "err") for st in ("outer", "inner") if not (st == "inner" and (not fl or i == "err"))]
+    # the future returned by fn ends up cancelled (directly) while the output is being cancelled
+    out += [dict(flat=True, form=fo, inp="ok", stage="inner", inner_end=e) for fo in ("executor", "f")
+            for e in ("cancelled", "already_cancelled")]
+    return out
 
 
 def rbody(mc, p):
@@ -300,6 +317,8 @@ def rbody(mc, p):
         mc.emit("fn", arg=brief(v))
         mc.point()
         if p["flat"]:
+            if p.get("inner_end") == "already_cancelled":
+                return F.f_return_cancelled()
             return inner if p["stage"] == "inner" else F.f_return(("g", v))
         return ("g", v)
     base = ManualExecutor(mc, mode="hold")
@@ -317,7 +336,12 @@ def rbody(mc, p):
                 src.set_result("x")
             else:
                 src.set_exception(E("in"))
-        if p["stage"] == "inner":
+        if p["stage"] == "inner" and p.get("inner_end") == "cancelled":
+            mc.point()
+            from concurrent.futures import Future as _F
+            _F.cancel(inner)
+            inner.set_running_or_notify_cancel()
+        elif p["stage"] == "inner":
             mc.point()
             if inner.set_running_or_notify_cancel():
                 inner.set_result(("late", "x"))
@@ -344,6 +368,8 @@ def rcheck(x):
     elif r:
         if p["inp"] == "err":
             want = ("err", "E(in)")
+        elif p.get("inner_end") in ("cancelled", "already_cancelled"):
+            want = ("cancelled", None)
         elif p["stage"] == "inner":
             want = ("ok", ("late", "x"))
         else:
